@@ -7,6 +7,11 @@ import sys
 import traceback
 
 sys.path.insert(0, os.path.dirname(os.path.abspath(__file__)))
+# Developer option (seeded / benign changes in a scratch worktree): VERIF_SRC=<dir>/src makes the checks import and run that tree.
+# Unset (the registered commands), the checks use /repo's working tree through the editable install.
+if os.environ.get("VERIF_SRC"):
+    sys.path.insert(0, os.environ["VERIF_SRC"])
+    os.environ["PYTHONPATH"] = os.environ["VERIF_SRC"]
 
 
 def main() -> int:
